@@ -57,6 +57,14 @@ func docModel(t *Terminal) (*elemM, []string) {
 	byKey := map[string]*elemM{}
 	ownedStorage := map[string]bool{}
 	var problems []string
+	// elements made detached with etree.NewElement("prefix:local") — attached later by AddChild, or the root
+	detached := map[string]*elemM{}
+	for _, e := range t.St.events {
+		if e.Kind == EvCall && shortName(e.Callee) == "etree.NewElement" && len(e.Args) == 1 && len(e.Res) == 1 {
+			m := &elemM{Key: e.Res[0].Key(), Tag: e.Args[0], Ev: e, InLoop: len(e.Iters) > 0}
+			detached[m.Key] = m
+		}
+	}
 	for _, e := range t.St.events {
 		switch e.Kind {
 		case EvStore:
@@ -99,6 +107,41 @@ func docModel(t *Terminal) (*elemM, []string) {
 					ch := &elemM{Key: e.Res[0].Key(), Tag: e.Args[1], Ev: e, InLoop: len(e.Iters) > 0}
 					byKey[ch.Key] = ch
 					m.Children = append(m.Children, ch)
+				}
+			case "etree.NewElement":
+				// the first detached element that receives content before anything else exists is the root
+				if m := detached[e.Res[0].Key()]; m != nil && root == nil && len(byKey) == 0 {
+					if tag, ok := constString(m.Tag); ok {
+						sp, lc := "", tag
+						if i := strings.Index(tag, ":"); i >= 0 {
+							sp, lc = tag[:i], tag[i+1:]
+						}
+						m.Space, m.Local, m.Tag = strV(sp), strV(lc), nil
+					}
+					byKey[m.Key] = m
+					root = m
+				}
+			case "(*etree.Element).AddChild":
+				// NewElement(tag) + AddChild is CreateElement(tag): the child lands at the end of the parent's children
+				if len(e.Args) == 2 {
+					child := stripIface(e.Args[1])
+					if p := byKey[e.Args[0].Key()]; p != nil {
+						if m := detached[child.Key()]; m != nil && byKey[m.Key] == nil {
+							byKey[m.Key] = m
+							p.Children = append(p.Children, m)
+						} else {
+							problems = append(problems, "tree mutation outside the escaping API: (*etree.Element).AddChild")
+						}
+					}
+				}
+			case "(*etree.Element).CreateText":
+				// CreateText on an element without text or children is SetText
+				if m := byKey[e.Args[0].Key()]; m != nil {
+					if m.Text == nil && len(m.Children) == 0 {
+						m.Text = e.Args[1]
+					} else {
+						problems = append(problems, "tree mutation outside the escaping API: (*etree.Element).CreateText")
+					}
 				}
 			case "(*etree.Element).SetText":
 				if m := byKey[e.Args[0].Key()]; m != nil {
@@ -260,8 +303,12 @@ func checkChildren(c *Ctx, rule, fname, where, pos string, t *Terminal, atoms ma
 					ch := got[gi]
 					gi++
 					exhausted := cls.Exhausted
-					c.check(ch.Text != nil && ap(ch.Text) == sp.Loop+"[*]" && exhausted && loopStartsAtZero(t, sp.Loop), rule+"/wiring", fname, where+": one "+sp.Tag+" per element of "+sp.Loop, c.P.InstrPos(ch.Ev.Instr),
-						"text <- "+sp.Loop+"[*], whole slice in order", "children "+sp.Tag+" do not reproduce "+sp.Loop+" element by element in order (text="+ap(ch.Text)+")")
+					textOK := ch.Text != nil && ap(ch.Text) == sp.Loop+"[*]"
+					if ch.Text == nil && atoms[sp.Loop+`[*] == ""`] {
+						textOK = true // guarded CreateText: an empty element text is no text node
+					}
+					c.check(textOK && exhausted && loopStartsAtZero(t, sp.Loop), rule+"/wiring", fname, where+": one "+sp.Tag+" per element of "+sp.Loop, c.P.InstrPos(ch.Ev.Instr),
+						"text <- "+sp.Loop+"[*], whole slice in order", "children "+sp.Tag+" do not reproduce "+sp.Loop+" element by element in order (text="+apOrNone(ch.Text)+")")
 				} else {
 					c.bad(rule+"/wiring", fname, where+": one "+sp.Tag+" per element of "+sp.Loop, pos, "generic iteration over "+sp.Loop+" creates no "+sp.Tag)
 				}
@@ -293,6 +340,8 @@ func checkChildren(c *Ctx, rule, fname, where, pos string, t *Terminal, atoms ma
 		gotText := ""
 		if ch.Text != nil {
 			gotText = ap(ch.Text)
+		} else if atoms[wantText+` == ""`] {
+			gotText = wantText // `if x != "" { el.CreateText(x) }`: no text node is what SetText("") serialises to
 		}
 		c.check(gotText == wantText, rule+"/wiring", fname, cw+": text", c.P.InstrPos(ch.Ev.Instr), "text <- "+wantText, "text of "+sp.Tag+" is "+gotText+", want "+wantText)
 		checkAttrs(c, rule, fname, cw, pos, atoms, ch.Attrs, sp.Attrs)
